@@ -751,6 +751,17 @@ def fam_E2(types, roots=BINOPS, inner=BINOPS):
                 yield case("E2", "%s(%s)/%s" % (op2, op1, t), simple(t, ps, [("ret", B(op2, a, B(op1, b, c)))]), k=4)
 
 
+def fam_E2F(types, ops=BINOPS):
+    """depth 2, full tree: ((a op1 b) op2 (c op3 a))."""
+    for t in types:
+        a, b, c = P("a", t), P("b", t), P("c", t)
+        ps = [("a", t), ("b", t), ("c", t)]
+        for op2 in ops:
+            for op1 in ops:
+                for op3 in ops:
+                    yield case("E2F", "(%s)%s(%s)/%s" % (op1, op2, op3, t), simple(t, ps, [("ret", B(op2, B(op1, a, b), B(op3, c, a)))]), k=4)
+
+
 def fam_E3(types):
     """depth 2 ending in a comparison or starting with a unary operator / cast: ((a op b) cmp c), (-(a op b)), cast<T2>(a op b) op2 c."""
     for t in types:
@@ -795,9 +806,8 @@ def cond_atoms(t="int"):
     return [CMP("<", a, b), CMP("==", b, c), CMP(">=", a, c), CMP("!=", a, K(1, t))]
 
 
-def fam_COND(thorough):
+def fam_COND(thorough, t="int"):
     """short-circuit conditions of depth <= 2, as a value and as a branch condition, with a side-effecting right operand."""
-    t = "int"
     ps = [("a", t), ("b", t), ("c", t)]
     at = cond_atoms(t)
     shapes = []
@@ -812,15 +822,18 @@ def fam_COND(thorough):
                 continue
             shapes += [("or", ("and", c1, c2, "bool"), c3, "bool"), ("and", c1, ("or", c2, c3, "bool"), "bool"),
                        ("or", c1, ("and", c2, c3, "bool"), "bool"), ("and", ("or", c1, c2, "bool"), c3, "bool")]
+    lo, hi = trange(t)
     for i, s in enumerate(shapes):
-        feat = "shape/" + shape_name(s)
-        vec = small3()
+        feat = "shape/" + shape_name(s) + ("" if t == "int" else "/" + t)
+        vec = [v for v in small3() if all(lo <= x <= hi for x in v)] if lo < 0 else [[x % 4 for x in v] for v in small3() if min(v) >= 0] + [[hi, 1, hi], [hi, hi, 0], [0, hi, 1]]
         yield case("COND", feat + "/value", simple("bool", ps, [("ret", s)]), vecs=vec)
         yield case("COND", feat + "/if", simple(t, ps, [("if", s, [("ret", K(1, t))], []), ("ret", K(0, t))]), vecs=vec)
         if i % 4 == 0:
             yield case("COND", feat + "/boolvar", simple(t, ps, [("var", "t", "bool", s), ("if", P("t", "bool"), [("ret", P("a", t))], [("ret", P("b", t))])]), vecs=vec)
             yield case("COND", feat + "/while", simple(t, ps, [("var", "x", t, K(0, t)), ("while", ("and", s, CMP("<", P("x", t), K(3, t)), "bool"),
                                                                                          [("aug", "+", P("x", t), K(1, t))]), ("ret", P("x", t))]), vecs=vec)
+    if t != "int":
+        return
     # side effects on the right of and/or must happen only when the left does not decide
     g = P("g@", t)
     ext = fn("bool", [("v", t)], [("set", g, B("+", B("*", g, K(3, t)), P("v", t))), ("ret", CMP(">", P("v", t), K(0, t)))], name="ext@")
@@ -1349,10 +1362,13 @@ def all_cases(tier, seed=0):
     out += list(fam_CONST(thorough))
     out += list(fam_MOD())
     if thorough:
-        out += list(fam_E2(["int", "byte", "int8_t", "int16_t", "int64_t", "uint16_t", "uint32_t", "uint64_t"]))
-        out += list(fam_E3(SIX))
-        out += list(fam_E2M())
+        out += list(fam_E2(INT_NAMES))
+        out += list(fam_E3(["int", "byte", "int8_t", "int16_t", "int64_t", "uint16_t", "uint32_t", "uint64_t"]))
+        out += list(fam_E2M(types=["int", "byte", "int8_t", "int16_t", "int64_t", "uint16_t", "uint32_t", "uint64_t"]))
         out += list(fam_E2M(types=["int16_t", "uint32_t", "int8_t", "byte", "int64_t"], pairs=(("+", "*"), ("|", "-"), (">>", "+"), ("*", "<="))))
+        out += list(fam_E2F(list(dict.fromkeys(["int", "byte", "int64_t"] + ["int8_t", "uint16_t", "uint64_t", "int16_t", "uint32_t"][seed % 5:][:1]))))
+        for ct in ("byte", "int8_t", "int64_t", "uint64_t"):
+            out += list(fam_COND(True, ct))
         out += list(fam_CASTCHAIN(INT_NAMES + ["float", "double"]))
     else:
         # complete for three types and one seed-selected root operator, plus every (inner, root) pair once for int
@@ -1361,4 +1377,11 @@ def all_cases(tier, seed=0):
         out += list(fam_E2M(types=["int", "byte", "int8_t", "uint16_t"], pairs=(("+", "/"), ("*", ">>"), ("-", "<"))))
         out += list(fam_E3(["int", "byte", "int8_t"][seed % 3:][:1]))
         out += list(fam_CASTCHAIN(types=["int", "byte", "int8_t", "uint16_t", "int64_t"]))
-    return out
+    seen = set()
+    uniq = []
+    for c in out:
+        key = (c["c3"], c["src"])
+        if key not in seen:
+            seen.add(key)
+            uniq.append(c)
+    return uniq
